@@ -29,7 +29,7 @@ Rot(sc) == (SumOf(sc.pages) * 5 + Len(sc.pages) + sc.q + KindNo(sc.kind) * 2 + s
 \* any page size at least as large as the largest page (the scripted node never sends more)
 SizeOf(sc) == Max2(1, MaxOfSeq(sc.pages)) + (Len(sc.pages) % 2) * 100
 
-GenInit == /\ scen \in Scenarios
+GenInit == /\ PickScenario
            /\ state = InitState(scen)
            /\ variant \in IF AllVariants THEN Variants ELSE {VariantNo(Rot(scen))}
 GenNext == UNCHANGED <<scen, state, variant>>
